@@ -60,7 +60,8 @@ class OrderLeg(object):
                     ob = {"tuple": ob}
             single = ob is not None and (isinstance(ob, str) or len(ob["tuple"] if isinstance(ob, dict) else ob) == 1)
             return {"method": method, "featuretype": ft, "strand": draw(st.sampled_from([None, None, "+", "-", "."])),
-                    "order_by": ob, "reverse": single and draw(st.booleans())}
+                    "order_by": ob, "reverse": single and draw(st.booleans()),
+                    "limit_seqid": draw(st.sampled_from([None, None, None, "chr1", "10"]))}
 
         @st.composite
         def case(draw):
@@ -84,7 +85,8 @@ class OrderLeg(object):
                     "note": draw(st.sampled_from(["", "a", "B", "é", "10", "9"])),
                     "extra": draw(st.sampled_from([[], [], ["x"], ["10"], ["9", "a"]])),
                 })
-            return {"features": feats, "queries": draw(st.lists(query(), min_size=20, max_size=28)), "file_db": draw(st.booleans())}
+            return {"features": feats, "queries": draw(st.lists(query(), min_size=20, max_size=28)), "file_db": draw(st.booleans()),
+                    "other_handle_pragmas": draw(st.integers(0, 9)) == 0, "touch_first": draw(st.integers(0, 3)) == 0}
 
         return case()
 
@@ -111,7 +113,11 @@ class OrderLeg(object):
     def _filter(self, rows, q):
         ft = q["featuretype"]
         fts = None if ft is None else ([ft] if isinstance(ft, str) else list(ft))
-        return [r for r in rows if (fts is None or r["featuretype"] in fts) and (q["strand"] is None or r["strand"] == q["strand"])]
+        out = [r for r in rows if (fts is None or r["featuretype"] in fts) and (q["strand"] is None or r["strand"] == q["strand"])]
+        if q.get("limit_seqid"):
+            # limit=(seqid, 1, 2**28): everything with coordinates on that seqid (generated coordinates are far below 2**28)
+            out = [r for r in out if r["seqid"] == q["limit_seqid"] and r["start"] is not None and r["end"] is not None]
+        return out
 
     def classify(self, case):
         rows = self._rows(case)
@@ -139,7 +145,14 @@ class OrderLeg(object):
         for i, f in enumerate(feats):
             attrs = "ID=f%d" % i + (";note=%s" % f["note"] if f["note"] else "")
             lines.append("\t".join(f["cols"] + [attrs] + f["extra"]))
+        if case.get("other_handle_pragmas"):
+            # pragmas given to one handle are that handle's business
+            other = gffutils.create_db("chrZ\t.\tgene\t1\t2\t.\t+\t.\tID=z\n", ":memory:", from_string=True)
+            other.set_pragmas({"reverse_unordered_selects": "ON"})
         db = gffutils.create_db("\n".join(lines) + "\n", ctx.path("q.db") if case.get("file_db") else ":memory:", from_string=True)
+        if case.get("touch_first") and len(feats) >= 2:
+            # add_relation() with a func re-writes the row of the feature the func returns; the feature keeps its place
+            db.add_relation("f0", "f1", 1, parent_func=lambda parent, child: parent)
         rows = self._rows(case)
         byid = dict((r["id"], r) for r in rows)
         for r_ in db.execute("SELECT id, attributes, extra FROM features"):
@@ -182,6 +195,8 @@ class OrderLeg(object):
                 kw["reverse"] = True
             if q["strand"] is not None:
                 kw["strand"] = q["strand"]
+            if q.get("limit_seqid"):
+                kw["limit"] = (q["limit_seqid"], 1, 2 ** 28)
             ft = q["featuretype"]
             if isinstance(ft, list) and q["method"] == "all_features" and len(ft) > 1:
                 pass
@@ -202,7 +217,7 @@ class OrderLeg(object):
             cols = self._cols(ob)
             if not cols:
                 # only a full, unfiltered iteration is promised in input order
-                if q["featuretype"] is None and q["strand"] is None and got != exp:
+                if q["featuretype"] is None and q["strand"] is None and not q.get("limit_seqid") and got != exp:
                     return Failure("%s is not in input order: %r" % (desc, got), sig={"kind": "input-order"})
                 continue
             keys = [tuple(sk(byid[i][c]) for c in cols) for i in got]
